@@ -21,7 +21,6 @@ type StuckTarget struct {
 	fillers []net.Conn
 	mu      sync.Mutex
 	ln      net.Listener
-	held    []net.Conn
 	closed  bool
 }
 
@@ -68,6 +67,8 @@ func (s *StuckTarget) Release() {
 	if s.ln != nil || s.closed {
 		return
 	}
+	// a queue of one would drop all but one of the retransmissions that arrive together: widen it first
+	_ = syscall.Listen(s.fd, 128)
 	f := os.NewFile(uintptr(s.fd), "stuck-target")
 	ln, err := net.FileListener(f)
 	f.Close() // FileListener duplicated the descriptor
